@@ -119,6 +119,29 @@ def declared(node, names):
     return ins, outs, bin_, bout
 
 
+def queue_ledger_gaps(node, names, eq=None):
+    """what a queue tank declares to hold (Tank.storage) is what it holds (arrived + in its internal queue) plus the
+    decay its internal arc has applied and the next close-out still has to book (coq/DecayQTank.v qledger): whoever
+    reaches into such a tank (QueueGroundwater.pull_set_active, Sewer, ...) has to keep that"""
+    from wsimod.nodes.tanks import QueueTank
+    out = []
+    for k, t in tanks_of(node):
+        if not isinstance(t, QueueTank):
+            continue
+        decl = cvec(t.storage, names)
+        phys = tank_stock(t, names)
+        pend = cvec(t.internal_arc.total_decayed, names) if hasattr(t.internal_arc, "total_decayed") else zeros(len(names))
+        want = vadd(phys, pend)
+        if eq is not None:
+            ok = eq(decl, want)
+        else:
+            ok = all(abs(x - y) <= 1e-7 * max(1.0, abs(x), abs(y)) for x, y in zip(decl, want))
+        if not ok:
+            out.append(f"queue tank {node.name}.{k} ({type(t).__name__}) declares {fmt(decl)} but holds {fmt(phys)} "
+                       f"with decay still to be booked {fmt(pend)}")
+    return out
+
+
 class Monitor:
     def __init__(self, mode="exact", pids=("C01", "C03", "C06", "C12"), tol=1e-7, cfg=None):
         self.deposited = {}
@@ -166,9 +189,17 @@ class Monitor:
                         return w
                     sf.inflows = [mk(f, (n.name, i)) if getattr(f, "__name__", "") == "simple_deposition" else f for f in sf.inflows]
 
+    def queue_tank_ledgers(self, model, when):
+        for n in model.nodes.values():
+            for msg in queue_ledger_gaps(n, self.names, self.eq if self.mode == "exact" else None):
+                for pid in ("C03", "C11"):
+                    self.bad(pid, f"{when} {msg}")
+
     def on_pre(self, model, date):
         names = _names()
         self.names = names
+        if self.pids & {"C03", "C11"}:
+            self.queue_tank_ledgers(model, f"start of {date.date()}:")
         if "C17" in self.pids:
             self.watch_deposition(model)
         self.pre = {n.name: (node_stock(n, names), node_decayed(n, names)) for n in model.nodes.values()}
@@ -189,6 +220,15 @@ class Monitor:
                 tot_pre = vadd(tot_pre, self.pre_arcs[a.name])
                 if hasattr(a, "total_decayed"):
                     dec = vadd(dec, cvec(a.total_decayed, names))
+            # C02 per arc: between the observation before close-out and the next timestep an arc only decays
+            for a in model.arcs.values():
+                was = getattr(self, "post_prev_arcs", {}).get(a.name)
+                if was is None:
+                    continue
+                d_ = cvec(a.total_decayed, names) if hasattr(a, "total_decayed") else zeros(len(names))
+                if not self.eq(vadd(self.pre_arcs[a.name], d_), was, scale=max([abs(float(x)) for x in was] + [1.0]) if self.mode != "exact" else 1):
+                    self.bad("C02", f"close-out before {date.date()}: arc {a.name} ({type(a).__name__}) held {fmt(was)} in transit, now holds "
+                                    f"{fmt(self.pre_arcs[a.name])} and reports {fmt(d_)} decayed (water left or entered the arc outside a timestep)")
             if not self.eq(vadd(tot_pre, dec), self.post_prev, scale=max(abs(x) for x in self.post_prev) if self.mode != "exact" else 1):
                 self.bad("C03", f"close-out before {date.date()}: stock before {fmt(self.post_prev)} != stock after "
                                 f"{fmt(tot_pre)} + decayed {fmt(dec)} (water or mass appeared/disappeared between timesteps)")
@@ -233,6 +273,13 @@ class Monitor:
             vi, vo = cvec(a.vqip_in, names), cvec(a.vqip_out, names)
             rec["flows"][a.name] = vo[0]
             sc = max(abs(float(x)) for x in vi + vo + (1.0,)) if self.mode != "exact" else 1
+            # C02 per arc within the timestep: entered = left + change in transit + decayed
+            d_arc = vsub(cvec(a.total_decayed, names), self.pre_arc_dec.get(a.name, zeros(len(names)))) if hasattr(a, "total_decayed") else zeros(len(names))
+            if not self.eq(vi, vadd(vadd(vo, vsub(tr, self.pre_arcs[a.name])), d_arc), sc):
+                self.bad("C02", f"{date.date()} arc {a.name} ({type(a).__name__}): entered {fmt(vi)} != left {fmt(vo)} + change in transit "
+                                f"{fmt(vsub(tr, self.pre_arcs[a.name]))} + decayed {fmt(d_arc)}")
+            self.post_prev_arcs = getattr(self, "post_prev_arcs", {})
+            self.post_prev_arcs[a.name] = tr
             if not (self.nonneg(vi, sc) and self.nonneg(vo, sc) and self.nonneg((a.flow_in, a.flow_out), sc)):
                 # recorded known finding queuearc-late-bounce, by mechanism: only the in-record of a travel-time arc that
                 # started the timestep with water admitted earlier is negative (the bounced remainder of that water was
@@ -252,6 +299,8 @@ class Monitor:
             self.bad("C03", f"{date.date()}: stock change {fmt(vsub(tot_post, tot_pre))} + decayed {fmt(decw)} != "
                             f"boundary inflow - outflow {fmt(boundary)}")
         self.post_prev = tot_post
+        if self.pids & {"C03", "C11"}:
+            self.queue_tank_ledgers(model, f"{date.date()}:")
         if "C17" in self.pids and self.cfg is not None:
             self.boundary(model, date)
         if self.mode != "exact":
